@@ -67,11 +67,11 @@ def gen_case(rng, tier):
             mols.append((pos.tolist(), ri, kind))
         comps.append((tmpl, mols))
     order = int(rng.choice([0, 1, 1]))
-    scale = float(rng.choice([1.0, 0.5, 2.0]))
+    scale = float(rng.choice([1.0, 0.5, 2.0, 8.0, 0.125]))      # voxel sizes far from 1 nm too (lengths in nm vs pixels)
     return N, comps, order, scale
 
 
-def run_sim(N, comps, order, scale, twod=False, reverse=False):
+def build_sim(N, comps, order, scale, reverse=False):
     from acryo import TomogramSimulator, Molecules
     from scipy.spatial.transform import Rotation
     R = rot24()
@@ -84,6 +84,11 @@ def run_sim(N, comps, order, scale, twod=False, reverse=False):
         pos = np.array([m[0] for m in ms]) * scale
         rot = Rotation.from_matrix(np.stack([R[m[1]] for m in ms]).astype(float))
         sim.add_molecules(Molecules(pos, rot), tmpl.astype(np.float32), name=f"c{ci}")
+    return sim
+
+
+def run_sim(N, comps, order, scale, twod=False, reverse=False):
+    sim = build_sim(N, comps, order, scale, reverse)
     if twod:
         return sim.simulate_2d(N[1:])
     return sim.simulate(N)
@@ -105,6 +110,8 @@ def corr_sim(ck, rng):
     classes = {}
     for i in range(n):
         N, comps, order, scale = gen_case(rng, ck.tier)
+        if i % 4 == 1:
+            scale = 8.0          # coarse voxels: lengths given in nm are much larger than the same lengths in pixels
         for _, mols in comps:
             for m in mols:
                 classes[m[2]] = classes.get(m[2], 0) + 1
@@ -118,7 +125,21 @@ def corr_sim(ck, rng):
         if not np.allclose(out, rev, atol=1e-4):
             ck.violation(what="simulate depends on component / molecule order", inp=py, key={"site": "simulate", "symptom": "order"}, oracle="corr:simulate")
         cases.append((case_term(N, comps, order, scale, out), py))
-        if i % 3 == 0:
+        # derived simulators describe the same scene: copy / replace(same) reproduce it, subsets add up to it
+        ck.oracle_count("derived_simulators", 1, 1)
+        try:
+            sim = build_sim(N, comps, order, scale)
+            names = list(sim.components.keys())
+            same = np.allclose(sim.copy().simulate(N), out, atol=1e-4) and np.allclose(sim.replace(order=order).simulate(N), out, atol=1e-4)
+            parts = sum(sim.subset(nm_).simulate(N) for nm_ in names)
+            allsub = sim.subset(names).simulate(N)
+            okd = same and np.allclose(parts, out, atol=1e-3) and np.allclose(allsub, out, atol=1e-4) and len(sim.collect_molecules()) == sum(len(m_) for _, m_ in comps)
+        except Exception as e:  # noqa
+            okd = False
+        if not okd:
+            ck.violation(what="copy()/replace()/subset() of a simulator do not reproduce the scene (subsets of all components must add up to the full tomogram)",
+                         inp=py, key={"site": "derived-simulator", "unit_scale": scale == 1.0}, oracle="derived_simulators")
+        if i % 3 == 0 or scale == 8.0:
             p2 = run_sim(N, comps, order, scale, twod=True)
             # the 2-D simulation must equal the z-projection of a 3-D simulation tall enough to hold every fragment
             tall = (int(max(max(m[0][0] for m in ms) for _, ms in comps)) + 12, N[1], N[2])
